@@ -5,6 +5,7 @@
 # prints one line per check: DETECTED / missed / trouble.
 set -u
 export GOFLAGS=-mod=mod GOPROXY=off GOSUMDB=off GOTOOLCHAIN=local
+VERIF="$(cd "$(dirname "${BASH_SOURCE[0]}")/.." && pwd)"
 PATCH="$(readlink -f "$1")"; shift
 NAME="$(basename "$(dirname "$PATCH")")-$(basename "$(dirname "$(dirname "$PATCH")")")"
 COPY="$(mktemp -d /tmp/mutrepo.XXXXXX)"
@@ -15,7 +16,7 @@ rm -rf "$COPY/.git"
 (cd "$COPY" && go build ./... && go test -vet=off -count=1 ./... >/dev/null 2>&1) || echo "$NAME: note: goyang's own tests fail with this patch"
 OUT=/tmp/mutout/$NAME; mkdir -p "$OUT"
 for ID in "$@"; do
-  VERIF_REPO="$COPY" VERIF_OUT="$OUT" VERIF_SKIP_GATE=1 /verif/check "$ID" "${TIER:-quick}" > "$OUT/$ID.log" 2>&1
+  VERIF_REPO="$COPY" VERIF_OUT="$OUT" VERIF_SKIP_GATE=1 "$VERIF/check" "$ID" "${TIER:-quick}" > "$OUT/$ID.log" 2>&1
   rc=$?
   case $rc in
     1) echo "$NAME $ID: DETECTED  $(grep -m1 '^violation class' "$OUT/$ID.log")";;
@@ -27,7 +28,7 @@ done
 if [ "${REPLAY:-1}" = "1" ]; then
   for f in "$OUT"/replays/*.json; do
     [ -f "$f" ] || continue
-    VERIF_REPO="$COPY" VERIF_SKIP_GATE=1 /verif/check replay "$f" > "$OUT/replay.log" 2>&1; rc=$?
+    VERIF_REPO="$COPY" VERIF_SKIP_GATE=1 "$VERIF/check" replay "$f" > "$OUT/replay.log" 2>&1; rc=$?
     if [ $rc -eq 1 ]; then echo "$NAME replay $(basename $f): reproduces"; else echo "$NAME replay $(basename $f): DOES NOT REPRODUCE (exit $rc)"; fi
   done
 fi
